@@ -1802,6 +1802,42 @@ func monC12(c *child.Ctx, replay json.RawMessage) {
 			c.Count("faults_in_the_second_copy_of_a_repeated_frame", 1)
 		}
 	}
+	// damage in the victim's type field (its message number becomes one that nobody has
+	// allocated, or zero, or 4095) AND a source that falls silent for half a second or a
+	// second in the middle of the victim
+	nTyped := c.Share(c.Pick(48, 960))
+	for i := 0; i < nTyped; i++ {
+		var vf gen.Seg
+		for {
+			vf = gen.RandFrame(r)
+			if len(vf.Bytes) >= 14 && len(vf.Bytes) <= 90 {
+				break
+			}
+		}
+		gg := append([]byte(nil), vf.Bytes...)
+		nt := []int{0, 1, 500, 1300, 2000, 3000, 4000, 4095, 777, 1999}[i%10]
+		gg[3], gg[4] = byte(nt>>4), byte(nt<<4)|gg[4]&0x0f
+		hasD3 := false
+		for _, b := range gg[1:] {
+			hasD3 = hasD3 || b == 0xd3
+		}
+		if ref.IsFrame(gg) || hasD3 || bytes.Equal(gg, vf.Bytes) {
+			continue
+		}
+		pre, post := gen.RandFrame(r), gen.RandFrame(r)
+		st := gen.Stream{pre, gen.Seg{Kind: "corrupt", Type: -1, Bytes: gg}, post}
+		exp := []gen.Expected{{Type: pre.Type, Bytes: pre.Bytes}, {Type: -1, Bytes: gg}, {Type: post.Type, Bytes: post.Bytes}}
+		stall := []time.Duration{450 * time.Millisecond, 900 * time.Millisecond, 250 * time.Millisecond}[i%3]
+		at := len(pre.Bytes) + r.Range(6, len(gg)-2)
+		k := streamCase{Input: hexs(st.Bytes()), Expect: toExp(exp), StallMs: stall.Milliseconds(), PauseAt: []int{at}, Note: fmt.Sprintf("victim's type field rewritten to %d, source silent for %v inside the victim", nt, stall)}
+		cj := c.BeginV(k)
+		msgs := runTimed(st.Bytes(), map[int]time.Duration{at: stall}, 0)
+		if why := compareSeq(msgs, k.Expect); why != "" {
+			c.Violate("corruption-not-contained", k.Note+": "+why, cj)
+		}
+		c.Count("victims_with_a_damaged_type_field_and_a_silent_source", 1)
+		c.Eval(ref.Hash64(cj), true)
+	}
 	// the whole input already waiting in a deep input queue and a consumer that comes for
 	// each message 30-60 ms late (back-pressure from both sides): a damaged frame next to
 	// other data is still delivered on its own, the other data on its own
